@@ -60,8 +60,12 @@ TEXT = {
         text=("Theorems for every environment and configuration: no paths -> pass; a whitelisted path -> pass; ignore-file layer rejects -> reject; otherwise pass iff some path is not "
               "matched by an ignore pattern and is wanted (filter match incl. the origin//rel re-match, or non-directory with a listed extension; everything when nothing is configured); "
               "ignore precedence; inserting a non-negated ignore pattern anywhere can only turn pass into reject; the empty configuration passes everything. The function the driver runs "
-              "against the real filterer IS the abstract decision instantiated (checkEventC), so the theorems hold for it by instantiation."),
-        note=COMMON_NOTE + "Modelled: globset matching, std::path::Path::extension."),
+              "against the real filterer IS the abstract decision instantiated (checkEventC), so the theorems hold for it by instantiation. "
+              "What the concrete glob model means on the property's grammar is proved too (Wx/Glob/GlobThm.lean, Props.C11.*_rule): for every Clean name / extension and every candidate "
+              "path, the line `[!]name[/]` parses to `**/name` and matches exactly the paths whose last component is name; `*.ext` exactly a slash-free stem + .ext at any depth; `/rooted` "
+              "and `a/b` exactly that relative path; `x/**` exactly the paths strictly below x; `!` and a trailing `/` set the negation / directories-only flags and nothing else "
+              "(addLine_ok for every core pattern). The parser is total; its fuel (length + 1) is proved sufficient (parseGo_fuel)."),
+        note=COMMON_NOTE + "Modelled: globset / ignore::gitignore matching (Wx/Glob/Glob.lean, tied to the real crate by the glob stream), std::path::Path::extension."),
     "C14": dict(
         design_ref="§7 C14",
         technique="Lean 4 proof by mutual structural induction that the discovery walker computes the specification (reachable directories judged by their proper ancestors' files), order-independence, soundness, completeness; differential execution against from_origin on real trees plus a specification oracle",
